@@ -32,6 +32,7 @@ class CaptureMap:
         self.regmap = []     # (parent region prefix, closure region prefix)
         self.valmap = []     # (parent value term, closure term)
         self.container = {}  # k -> closure-side region of a container captured by value
+        self.pointee = {}    # k -> closure-side region behind a pointer / reference captured by value
         self.eqs = {}        # parent term -> terms the parent knows to be equal (capture site)
         pvers = _vers_at(pan, b, i)
         for k, c in enumerate(self.caps):
@@ -57,6 +58,8 @@ class CaptureMap:
                 if mode_ != "mem":
                     continue
                 can.regions.add(name)
+                if not byref:
+                    self.pointee[k] = name
                 pr = pan.region_of_pointer(ops[k])
                 if pr is not None:
                     self.regmap.append((pr, name))
@@ -102,6 +105,8 @@ class CaptureMap:
                 if t == pv and cv not in out:
                     out.append(cv)
         k0 = t[0]
+        if k0 == "ITEM":
+            return [getattr(self, "_item", t)]
         if k0 in ("const", "constx", "fnref"):
             return out or [t]
         if k0 in ("arg", "phi", "site", "opq", "undef", "init", "unk"):
@@ -229,10 +234,24 @@ def closure_entry_facts(crate, can):
             for side in (op[1], op[2]):
                 for s in cm.tr_all(side):
                     out.append(("le", cm.val[k], s))
+            for sa in cm.tr_all(op[1])[:2]:
+                for sb in cm.tr_all(op[2])[:2]:
+                    a_, b_ = (sa, sb) if repr(sa) <= repr(sb) else (sb, sa)
+                    out.append(("eq",) + tuple(sorted((cm.val[k], ("min", a_, b_)), key=repr)))
         elif op[0] in ("bin", "call", "len", "max", "field"):
             for s in cm.tr_all(op, structural_only=True):
                 if s != cm.val[k]:
                     out.append(("eq",) + tuple(sorted((cm.val[k], s), key=repr)))
+        if k in cm.pointee and cm.caps[k]["ty"].get("k") == "ref" and cm.caps[k]["ty"]["to"].get("k") in ("slice",):
+            # a slice reference captured by value: its length is the length of what it was made from
+            src = strip_ref(op)
+            if src[0] == "addr":
+                src = pan.arg_for_call(src, _vers_at(pan, b, i), True)
+            L = mk_len(src, pan)
+            at = can.arg_for_call(("addr", cm.pointee[k], None), {}, True)
+            for s in cm.tr_all(L):
+                if s != ("len", at):
+                    out.append(("eq",) + tuple(sorted((("len", at), s), key=repr)))
         if k in cm.container:
             L = mk_len(strip_ref(op), pan)
             if L != ("len", strip_ref(op)):
@@ -276,6 +295,7 @@ def closure_entry_facts(crate, can):
 
 
 def tr_atom_item(cm, a, item):
+    cm._item = item
     combos = [[]]
     for x in a:
         if x == ("ITEM",):
